@@ -7,6 +7,7 @@ import (
 	"encoding/json"
 	"errors"
 	"fmt"
+	"math/big"
 	"os"
 	"path/filepath"
 	"runtime"
@@ -77,6 +78,9 @@ type deriveCase struct {
 	FailShift int `json:"fail_shift,omitempty"`
 	// Wrap: the toy curve reports invalid candidates with an error wrapping ErrInvalidKey
 	Wrap bool `json:"wrap,omitempty"`
+	// FaultKind: which permanent error the injected fault returns (0 the harness's own, 1 ErrNotHardened,
+	// 2 ErrHardenedChildPublicKey, 3 an error wrapping ErrNotHardened)
+	FaultKind int `json:"fault_kind,omitempty"`
 }
 
 func masks(name string) byte {
@@ -102,10 +106,10 @@ func curves(c deriveCase) (slip10.Curve, ref.Curve, *counter) {
 	case "ed25519":
 		return eddsa.Ed25519(), ref.Ed25519, cnt
 	case "toyW50", "toyW90":
-		return &toyW{wrap: c.Wrap, mask: masks(c.Curve), cnt: cnt, fault: fault{c.FailNew, c.FailShift}, nShift: new(int)},
+		return &toyW{wrap: c.Wrap, mask: masks(c.Curve), cnt: cnt, fault: fault{c.FailNew, c.FailShift, c.FaultKind}, nShift: new(int)},
 			&ref.Weier{C: secp.P256, Key: "toyW seed", Mask: masks(c.Curve)}, cnt
 	case "toyS50", "toyS90", "toyS98":
-		return &toyS{wrap: c.Wrap, mask: masks(c.Curve), cnt: cnt, fault: fault{c.FailNew, c.FailShift}, nShift: new(int)},
+		return &toyS{wrap: c.Wrap, mask: masks(c.Curve), cnt: cnt, fault: fault{c.FailNew, c.FailShift, c.FaultKind}, nShift: new(int)},
 			&ref.Ed{Mask: masks(c.Curve), Toy: true}, cnt
 	}
 	return nil, nil, cnt
@@ -311,7 +315,16 @@ func wrapped(c deriveCase) string {
 
 // isPermanent: the curve's error came back to the caller (wrapped with %w or quoted in the message).
 func isPermanent(err error) bool {
-	return err != nil && (errors.Is(err, errPermanent) || strings.Contains(err.Error(), errPermanent.Error()))
+	if err == nil {
+		return false
+	}
+	for k := 0; k < 4; k++ {
+		pe := permanentError(k)
+		if errors.Is(err, pe) || strings.Contains(err.Error(), pe.Error()) {
+			return true
+		}
+	}
+	return false
 }
 
 // cut2 returns a fresh instance of the curve under test without fault injection.
@@ -395,6 +408,7 @@ func genDerive(t *rapid.T) deriveCase {
 		c.Wrap = h.Pick(t, "wrap", 2, 1) == 1
 	}
 	if curve[:3] == "toy" && h.Pick(t, "fault", 4, 1) == 1 {
+		c.FaultKind = h.Pick(t, "faultkind", 3, 1, 1, 1)
 		if rapid.Bool().Draw(t, "faultnew") {
 			c.FailNew = rapid.IntRange(1, 4).Draw(t, "failnew")
 		} else {
@@ -411,7 +425,7 @@ func TestDerive(t *testing.T) {
 		Require: []string{"secp256k1/path", "nist256p1/path", "ed25519/path", "secp256k1/public-derivation", "nist256p1/public-derivation",
 			"retry/master", "retry/child", "retry/master+child", "retry/master/wrapped-invalid-key", "retry/child/wrapped-invalid-key", "nist256p1/sum-wraps-n-without-carry", "undefined/hardened-from-public", "undefined/ed25519-non-hardened",
 			"undefined/ed25519-non-hardened-public", "permanent-error/master", "permanent-error/child"},
-		Rule: "seeds of length 0..256 (weighted to > 64 and > 128 bytes) x {secp256k1, P-256, ed25519, toy curves with 50% / 87.5% / 98.4% invalid candidates (Weierstrass-like and string-key-like; their keys implement the optional HardenedOnly method and answer false), pinned P-256 steps whose sum I_L + k_par lies in [n, 2^256) (2^32 search, cmd/findwrap)} x paths of 0..6 hardened/non-hardened indices, optionally switching to the extended public key at a drawn step, the toy curves report invalid candidates either with the bare ErrInvalidKey or with an error wrapping it; optionally a permanent (non-ErrInvalidKey) curve error injected at a drawn call; at every prefix private key, chain code, serialized public key and fingerprint = own SLIP-0010 model with the same validity predicate; path API = step-wise; undefined derivations fail; permanent errors returned after exactly the expected number of curve calls (call budget 2000 instead of a timeout); non-trivial = path length >= 1 on a real curve, >= 1 retry on a toy curve, undefined derivation, or injected fault; distinct by case",
+		Rule: "seeds of length 0..256 (weighted to > 64 and > 128 bytes) x {secp256k1, P-256, ed25519, toy curves with 50% / 87.5% / 98.4% invalid candidates (Weierstrass-like and string-key-like; their keys implement the optional HardenedOnly method and answer false), pinned P-256 steps whose sum I_L + k_par lies in [n, 2^256) (2^32 search, cmd/findwrap)} x paths of 0..6 hardened/non-hardened indices, optionally switching to the extended public key at a drawn step, the toy curves report invalid candidates either with the bare ErrInvalidKey or with an error wrapping it; optionally a permanent (non-ErrInvalidKey) curve error injected at a drawn call (the harness's own error, or the library's ErrNotHardened / ErrHardenedChildPublicKey, bare or wrapped); at every prefix private key, chain code, serialized public key and fingerprint = own SLIP-0010 model with the same validity predicate; path API = step-wise; undefined derivations fail; permanent errors returned after exactly the expected number of curve calls (call budget 2000 instead of a timeout); non-trivial = path length >= 1 on a real curve, >= 1 retry on a toy curve, undefined derivation, or injected fault; distinct by case",
 	})
 }
 
@@ -523,5 +537,115 @@ func TestConcurrent(t *testing.T) {
 		Check:   checkConcurrent,
 		Require: []string{"ed25519/public=false", "secp256k1/public=true", "nist256p1/public=false"},
 		Rule:    "schedules: 2..8 goroutines released together, each repeatedly deriving its own child index (hardened and non-hardened) from one shared extended key (private or public) on the three real curves; every child = SLIP-0010 model computed beforehand; all non-trivial",
+	})
+}
+
+// ---- scalar validity and additive shift on the two Weierstrass curves (the arithmetic CKD relies on) ----
+
+type scalarCase struct {
+	Curve  string `json:"curve"`
+	Scalar h.B    `json:"scalar"` // 32 bytes, any value
+	Shift  h.B    `json:"shift"`  // 32 bytes, any value
+	Corner string `json:"corner"`
+}
+
+func checkScalar(c scalarCase) (h.Info, error) {
+	var cv slip10.Curve
+	var rc *secp.Curve
+	switch c.Curve {
+	case "secp256k1":
+		cv, rc = slipelliptic.Secp256k1(), secp.K1
+	case "nist256p1":
+		cv, rc = slipelliptic.Nist256p1(), secp.P256
+	default:
+		return h.Info{}, fmt.Errorf("PRECONDITION: curve")
+	}
+	if len(c.Scalar) != 32 || len(c.Shift) != 32 {
+		return h.Info{}, fmt.Errorf("PRECONDITION: lengths")
+	}
+	k, b := new(big.Int).SetBytes(c.Scalar), new(big.Int).SetBytes(c.Shift)
+	info := h.Info{Class: "scalar/" + c.Corner, NT: true}
+	key, err := cv.NewPrivateKey(append([]byte{}, c.Scalar...))
+	wantValid := k.Sign() > 0 && k.Cmp(rc.N) < 0
+	if wantValid != (err == nil) || (err != nil && !errors.Is(err, slip10.ErrInvalidKey)) {
+		return info, fmt.Errorf("NewPrivateKey(%x) on %s: %v; a scalar is valid iff 0 < k < n (valid=%v), and invalid ones are reported as ErrInvalidKey", []byte(c.Scalar), c.Curve, err, wantValid)
+	}
+	if !wantValid {
+		info.Class = "scalar/invalid-key"
+		return info, nil
+	}
+	if !bytes.Equal(key.Bytes(), c.Scalar) || !bytes.Equal(key.Public().Bytes(), rc.Compressed(rc.BaseMul(k))) {
+		return info, fmt.Errorf("NewPrivateKey(%x) on %s: Bytes() = %x, Public().Bytes() = %x, reference point %x", []byte(c.Scalar), c.Curve, key.Bytes(), key.Public().Bytes(), rc.Compressed(rc.BaseMul(k)))
+	}
+	sum := new(big.Int).Add(k, b)
+	sum.Mod(sum, rc.N)
+	wantInv := b.Cmp(rc.N) >= 0 || sum.Sign() == 0
+	child, err := key.Shift(append([]byte{}, c.Shift...))
+	if wantInv != (err != nil) || (err != nil && !errors.Is(err, slip10.ErrInvalidKey)) {
+		return info, fmt.Errorf("private Shift on %s, k=%x, I_L=%x [%s]: err=%v; SLIP-0010: invalid iff I_L >= n or I_L + k = 0 mod n (invalid=%v), reported as ErrInvalidKey so that derivation retries", c.Curve, k, b, c.Corner, err, wantInv)
+	}
+	if wantInv {
+		return info, nil
+	}
+	if want := sum.FillBytes(make([]byte, 32)); !bytes.Equal(child.Bytes(), want) || !bytes.Equal(child.Public().Bytes(), rc.Compressed(rc.BaseMul(sum))) {
+		return info, fmt.Errorf("private Shift on %s, k=%x, I_L=%x [%s]: child %x (public %x), reference (I_L + k mod n) = %x", c.Curve, k, b, c.Corner, child.Bytes(), child.Public().Bytes(), want)
+	}
+	return info, nil
+}
+
+func TestScalars(t *testing.T) {
+	h.Run(t, h.Sub[scalarCase]{
+		Prop: "C02", Name: "scalar-validity-and-shift", N: 1200,
+		Gen: func(t *rapid.T) scalarCase {
+			c := scalarCase{Curve: h.OneOf(t, "curve", "secp256k1", "nist256p1")}
+			n := secp.K1.N
+			if c.Curve == "nist256p1" {
+				n = secp.P256.N
+			}
+			one := big.NewInt(1)
+			max := new(big.Int).Sub(new(big.Int).Lsh(one, 256), one)
+			var k *big.Int
+			switch h.Pick(t, "kk", 4, 3, 1) {
+			case 0:
+				k = new(big.Int).Mod(new(big.Int).SetBytes(h.BytesN(t, "k", 32)), n)
+			case 1:
+				k = h.OneOf(t, "kc", big.NewInt(1), big.NewInt(2), new(big.Int).Sub(n, one), new(big.Int).Sub(n, big.NewInt(2)), new(big.Int).Rsh(n, 1))
+			default:
+				k = h.OneOf(t, "kbad", big.NewInt(0), n, new(big.Int).Add(n, one), max)
+			}
+			var b *big.Int
+			c.Corner = []string{"random", "zero", "n-k", "n-k+1", "n-k-1", "n", "n+1", "n-1", "2^256-1", "k", "sum-in-[n,2^256)"}[h.Pick(t, "bk", 4, 1, 3, 2, 2, 1, 1, 1, 1, 1, 2)]
+			switch c.Corner {
+			case "zero":
+				b = big.NewInt(0)
+			case "n-k":
+				b = new(big.Int).Mod(new(big.Int).Sub(n, k), n)
+			case "n-k+1":
+				b = new(big.Int).Mod(new(big.Int).Add(new(big.Int).Sub(n, k), one), n)
+			case "n-k-1":
+				b = new(big.Int).Mod(new(big.Int).Sub(new(big.Int).Sub(n, k), one), n)
+			case "n":
+				b = new(big.Int).Set(n)
+			case "n+1":
+				b = new(big.Int).Add(n, one)
+			case "n-1":
+				b = new(big.Int).Sub(n, one)
+			case "2^256-1":
+				b = max
+			case "k":
+				b = new(big.Int).Mod(k, n)
+			case "sum-in-[n,2^256)": // I_L + k wraps around n without a carry out of 256 bits
+				d := new(big.Int).Mod(new(big.Int).SetBytes(h.BytesN(t, "d", 32)), new(big.Int).Sub(max, n))
+				b = new(big.Int).Sub(new(big.Int).Add(n, d), new(big.Int).Mod(k, n))
+				b.Mod(b, n)
+			default:
+				b = new(big.Int).Mod(new(big.Int).SetBytes(h.BytesN(t, "b", 32)), n)
+			}
+			c.Scalar, c.Shift = k.FillBytes(make([]byte, 32)), b.FillBytes(make([]byte, 32))
+			return c
+		},
+		Check:   checkScalar,
+		Require: []string{"scalar/n-k", "scalar/invalid-key", "scalar/n", "scalar/sum-in-[n,2^256)", "scalar/random"},
+		Rule:    "the scalar arithmetic CKD relies on, through the curves' own NewPrivateKey / Key.Shift: k valid iff 0 < k < n; private Shift by I_L invalid (ErrInvalidKey) iff I_L >= n or I_L + k = 0 mod n, else (I_L + k mod n) and its point; I_L at 0, n-k, n-k+-1, n, n+-1, 2^256-1, k, sums in [n, 2^256), random; reference: affine big-integer curve; all non-trivial",
 	})
 }
